@@ -50,13 +50,24 @@ def run_check(check_id: str, tier: str, seed: int) -> int:
         nshards = min(nshards, meta.WORKERS.get(tier, nshards))
     tmp = tempfile.mkdtemp(prefix=f"twzmc-{check_id}-")
     procs = []
+    info0 = importlib.import_module("twzmc.checks.info").INFO[check_id]
+    groups = info0.get("hash_seeds", 1)  # every case is run under `groups` different hash seeds
+    per_group = max(1, nshards // groups)
+    seeds_used = []
     try:
-        for k in range(nshards):
+        for k in range(groups * per_group if groups > 1 else nshards):
             out = os.path.join(tmp, f"shard{k}.json")
             wenv = dict(env)
+            part_k, part_n = k, nshards
+            if groups > 1:
+                gi, part_k, part_n = k // per_group, k % per_group, per_group
+                hs = (seed + (0, 1, 7, 42, 3, 2)[gi % 6]) % (2**32)
+                wenv["PYTHONHASHSEED"] = str(hs)
+                if hs not in seeds_used:
+                    seeds_used.append(hs)
             wenv["VERIF_TMP"] = os.path.join(tmp, f"w{k}")
             os.makedirs(wenv["VERIF_TMP"], exist_ok=True)
-            p = subprocess.Popen([PY, "-m", "twzmc.worker", check_id, tier, str(k), str(nshards), out],
+            p = subprocess.Popen([PY, "-m", "twzmc.worker", check_id, tier, str(part_k), str(part_n), out],
                                  cwd=ROOT, env=wenv, stdout=subprocess.PIPE, stderr=subprocess.DEVNULL, text=True)
             procs.append((k, p, out))
         shards = []
@@ -159,6 +170,8 @@ def run_check(check_id: str, tier: str, seed: int) -> int:
         "determinism_selfchecks": tot["selfcheck"], "workers": nshards,
         "known_finding_hits": sum(known_hits.values()),
     }
+    if seeds_used:
+        cov["hash_seeds"] = seeds_used
     if capped:
         cov["time_cap_hit"] = True
         cov["capped_shards"] = len(capped)
